@@ -19,7 +19,8 @@ Semantics of one point, after `cancel`:
                  time elapse (`Act.elapse`); cancel does not interrupt it;
 * `send/recv ch true`  - inside a `select` that has a ctx case or a `default`: never parks the worker after cancel;
 * `send/recv ch false` - plain channel statement: completes only when the channel has room / an element;
-* `errSend`    - plain `errCh <- err` followed by `return`.
+* `errSend`    - plain (blocking) `errCh <- err` followed by `return`; the non-blocking report
+                 `select { case errCh <- err: default: }` is `send errCh true`.
 -/
 namespace Shutdown
 
